@@ -418,6 +418,54 @@ func init() {
 			r.Check(vt.Op == "deref" && strings.HasSuffix(vt.Args[0].String(), ".Validator") && loopPhiOf(vt) != nil, fk, "delegates to the iteration's validator", "*validator.Validator of the bonded validator being adjusted", "delegates to "+vt.String(), r.P(del))
 		}})
 
+	register(&Rule{ID: "C11.claimfirst", Props: []string{"C11", "C12", "C13"}, Floor: 2,
+		Doc: "the module's own stake on a validator changes only after that validator's pending rewards were claimed",
+		Run: func(e *Engine, r *RuleRun) {
+			// x/distribution withdraws a delegator's pending rewards automatically (BeforeDelegationSharesModified)
+			// whenever its delegation changes, to the delegator's own account.  For the module's delegation that is
+			// the alliance module account: coins that arrive there are neither indexed nor forwarded to the rewards
+			// pool, and the end blocker burns every staking-denom coin the module account holds.
+			n := 0
+			for _, fn := range e.SMFuncs() {
+				fk, fa := FuncKey(fn), e.FA(fn)
+				for _, c := range CallsTo(fn, "types.StakingKeeper.Delegate", "types.StakingKeeper.Unbond", "types.StakingKeeper.Undelegate", "types.StakingKeeper.BeginRedelegation") {
+					del := argT(fa, c, 1)
+					if !del.IsCall("types.AccountKeeper.GetModuleAddress") || moduleName(del.Args[1]) != "alliance" {
+						continue
+					}
+					n++
+					kind := strings.TrimPrefix(CalleeKey(c.Common()), "types.StakingKeeper.")
+					// which validator?
+					var val string
+					switch kind {
+					case "Delegate":
+						vt := argT(fa, c, 4)
+						if vt.Op == "deref" && strings.HasSuffix(vt.Args[0].String(), ".Validator") {
+							val = strings.TrimSuffix(vt.Args[0].String(), ".Validator")
+						}
+					default:
+						va := argT(fa, c, 2)
+						if va.Op == "extract" && va.Args[0].IsCall("types.AllianceValidator.GetValAddress") {
+							val = va.Args[0].CallArgsT()[0].String()
+						}
+					}
+					construct := "module stake change (" + kind + ") preceded by the validator's reward claim"
+					if val == "" {
+						r.Undecided(fk, construct, "cannot identify the validator whose module delegation is changed")
+						continue
+					}
+					ok := false
+					for _, cl := range CallsTo(fn, "keeper.Keeper.ClaimValidatorRewards") {
+						if fa.Dominates(cl, c) && stripOrd(argT(fa, cl, 1).String()) == stripOrd(val) {
+							ok = true
+						}
+					}
+					r.Check(ok, fk, construct, "ClaimValidatorRewards("+stripOrd(val)+") dominates the call", "the module's delegation on a validator is changed without first claiming that validator's rewards: x/distribution then withdraws the pending rewards into the module account, where they are not indexed for delegators and are burnt with the staking-denom sweep of the next end blocker", r.P(c))
+				}
+			}
+			r.Check(n >= 2, "-", "module stake changes found", fmt.Sprintf("%d staking calls that change the module's own delegation", n), fmt.Sprintf("only %d found", n))
+		}})
+
 	register(&Rule{ID: "C11.burn", Props: []string{"C11", "C10"}, Floor: 5,
 		Doc: "burned amount == amount returned by Unbond for the module address; burn follows unbond",
 		Run: func(e *Engine, r *RuleRun) {
@@ -508,7 +556,7 @@ func init() {
 			_ = n
 		}})
 
-	register(&Rule{ID: "C11.supply", Props: []string{"C11"}, Floor: 4,
+	register(&Rule{ID: "C11.supply", Props: []string{"C11", "C10"}, Floor: 4,
 		Doc: "bank supply queries subtract the alliance-bonded amount of the module address",
 		Run: func(e *Engine, r *RuleRun) {
 			for _, k := range []string{"bankkeeper.Keeper.SupplyOf", "bankkeeper.Keeper.TotalSupply"} {
